@@ -27,23 +27,25 @@ type sigAgg struct {
 }
 
 type Agg struct {
-	Prop       string             `json:"property"`
-	Runs       int                `json:"runs"`
-	ByWorkload map[string]*wlAgg  `json:"by_workload"`
-	Digests    []string           `json:"digests_nontrivial"`
-	Faults     map[string]int     `json:"faults"`
-	Probes     map[string]int     `json:"probes"`
-	Strategies map[string]int     `json:"strategies"`
-	States     []string           `json:"states"`
-	Samples    []*Outcome         `json:"samples"`
-	Sigs       map[string]*sigAgg `json:"signatures"`
-	Steps      int64              `json:"steps_total"`
-	SimTimeNs  int64              `json:"sim_time_ns"`
-	Switches   int64              `json:"switches_total"`
-	ClockJumps int64              `json:"clock_jumps"`
-	HarnessErr []string           `json:"harness_errors"`
-	WallS      float64            `json:"wall_s"`
-	Race       bool               `json:"race_build"`
+	Prop       string                 `json:"property"`
+	Runs       int                    `json:"runs"`
+	ByWorkload map[string]*wlAgg      `json:"by_workload"`
+	Digests    []string               `json:"digests_nontrivial"`
+	Faults     map[string]int         `json:"faults"`
+	Probes     map[string]int         `json:"probes"`
+	Strategies map[string]int         `json:"strategies"`
+	States     []string               `json:"states"`
+	Samples    []*Outcome             `json:"samples"`
+	Sigs       map[string]*sigAgg     `json:"signatures"`
+	Steps      int64                  `json:"steps_total"`
+	SimTimeNs  int64                  `json:"sim_time_ns"`
+	Switches   int64                  `json:"switches_total"`
+	ClockJumps int64                  `json:"clock_jumps"`
+	HarnessErr []string               `json:"harness_errors"`
+	WallS      float64                `json:"wall_s"`
+	Race       bool                   `json:"race_build"`
+	Cells      map[string]map[int]int `json:"cells,omitempty"`       // workload -> cell -> runs (enumeration mode)
+	CellsTotal map[string]int         `json:"cells_total,omitempty"` // workload -> number of cells
 }
 
 func envInt(name string, def int) int {
@@ -107,13 +109,34 @@ func search(t *testing.T, prop, outPath string) {
 	digests := map[string]bool{}
 	states := map[string]bool{}
 	start := time.Now()
+	enum := os.Getenv("VERIF_ENUM") == "1"
+	agg.Cells = map[string]map[int]int{}
+	agg.CellsTotal = map[string]int{}
+	for _, wl := range wls {
+		if len(wl.Cells) > 0 {
+			agg.CellsTotal[wl.Name] = wl.NumCells()
+		}
+	}
 	for i := 0; i < n; i++ {
 		if time.Now().After(deadline) {
 			break
 		}
 		seed := seed0 + uint64(i)
 		wl := wls[int(seed%uint64(len(wls)))]
-		o := RunOne(t, wl, seed, nil, false)
+		var o *Outcome
+		if enum && len(wl.Cells) > 0 {
+			k := seed / uint64(len(wls))
+			cell := int(k % uint64(wl.NumCells()))
+			o = RunOnePrefix(t, wl, seed, nil, wl.CellPrefix(cell, int(k/uint64(wl.NumCells()))), false)
+			cs := agg.Cells[wl.Name]
+			if cs == nil {
+				cs = map[int]int{}
+				agg.Cells[wl.Name] = cs
+			}
+			cs[cell]++
+		} else {
+			o = RunOne(t, wl, seed, nil, false)
+		}
 		agg.Runs++
 		wa := agg.ByWorkload[wl.Name]
 		if wa == nil {
